@@ -1,1 +1,422 @@
-fn main(){}
+//! `check <ID> --tier quick|thorough --seed N [--shard i/n] --part <file> [--replay <file>]`
+//! One process = one shard. The driver (/verif/bin/check) builds, shards, merges evidence and maps exit codes.
+
+use proptest::strategy::{Strategy, ValueTree};
+use proptest::test_runner::{Config, RngAlgorithm, RngSeed, TestCaseError, TestError, TestRng, TestRunner};
+use serde_json::json;
+use std::cell::RefCell;
+use std::collections::{BTreeMap, BTreeSet};
+use std::time::Instant;
+use vharness::case::{Case, Mode};
+use vharness::gen::case_strategy;
+use vharness::known;
+use vharness::props::{self, Fail, PropDef};
+use vharness::shrink;
+
+struct Stats {
+    cases: u64,
+    extra_runs: u64,
+    skipped: u64,
+    by_phase: BTreeMap<&'static str, u64>,
+    labels: BTreeMap<String, u64>,
+    distinct: BTreeSet<u64>,
+    nontrivial: u64,
+    excluded: BTreeMap<String, u64>,
+    samples: Vec<serde_json::Value>,
+    sampled_sched: bool,
+    sampled_nontrivial: u32,
+    /// set once a failure has been seen: proptest re-runs the closure while shrinking, those runs are not counted
+    frozen: bool,
+}
+
+impl Stats {
+    fn new() -> Self {
+        Stats {
+            cases: 0,
+            extra_runs: 0,
+            skipped: 0,
+            by_phase: BTreeMap::new(),
+            labels: BTreeMap::new(),
+            distinct: BTreeSet::new(),
+            nontrivial: 0,
+            excluded: BTreeMap::new(),
+            samples: vec![],
+            sampled_sched: false,
+            sampled_nontrivial: 0,
+            frozen: false,
+        }
+    }
+}
+
+fn sig_class(sig: &str) -> &str {
+    sig.split('|').next().unwrap_or(sig)
+}
+
+struct Ctx<'a> {
+    def: &'a PropDef,
+    stats: RefCell<Stats>,
+    trace: Option<String>,
+}
+
+impl<'a> Ctx<'a> {
+    /// evaluates one case; Err = violation that is not a listed open finding
+    fn eval(&self, case: &Case, phase: &'static str) -> Result<(), Fail> {
+        if let Some(path) = &self.trace {
+            let _ = std::fs::write(path, case.to_json());
+        }
+        let t_case = Instant::now();
+        let v = (self.def.check)(case);
+        if let Ok(ms) = std::env::var("VERIF_SLOW_MS") {
+            let el = t_case.elapsed().as_millis();
+            if el > ms.parse::<u128>().unwrap_or(1000) {
+                eprintln!("SLOW {el} ms: {} labels={:?}", case.to_json().chars().take(600).collect::<String>(), v.labels);
+            }
+        }
+        let mut st = self.stats.borrow_mut();
+        let counting = !st.frozen;
+        if counting {
+            st.cases += 1;
+            st.extra_runs += v.extra_runs as u64;
+            *st.by_phase.entry(phase).or_default() += 1;
+        }
+        if let Some(why) = &v.skipped {
+            if counting {
+                st.skipped += 1;
+                *st.labels.entry(format!("skipped: {why}")).or_default() += 1;
+            }
+            return Ok(());
+        }
+        if counting {
+            for l in &v.labels {
+                *st.labels.entry(l.clone()).or_default() += 1;
+            }
+        }
+        if let Some(f) = v.fail {
+            if known::is_open(self.def.id, &f.sig) {
+                if counting {
+                    *st.excluded.entry(f.sig.clone()).or_default() += 1;
+                }
+                return Ok(());
+            }
+            return Err(f);
+        }
+        if counting && v.nontrivial {
+            st.nontrivial += 1;
+            st.distinct.insert(case.hash64());
+            if st.sampled_nontrivial < 3 {
+                st.sampled_nontrivial += 1;
+                st.samples.push(json!({"phase": phase, "nontrivial": true, "case": serde_json::to_value(case).unwrap()}));
+            }
+        }
+        if counting && !st.sampled_sched && case.is_sched() {
+            st.sampled_sched = true;
+            st.samples.push(json!({"phase": phase, "scheduled": true, "case": serde_json::to_value(case).unwrap()}));
+        }
+        if counting && st.samples.len() < 2 {
+            st.samples.push(json!({"phase": phase, "case": serde_json::to_value(case).unwrap()}));
+        }
+        Ok(())
+    }
+
+    /// does the case still fail with a signature of the same class (and not a listed finding)?
+    fn still_fails(&self, case: &Case, class: &str) -> bool {
+        let reps = if case.is_sched() { 1 } else { 4 };
+        for _ in 0..reps {
+            let v = (self.def.check)(case);
+            if let Some(f) = v.fail {
+                if sig_class(&f.sig) == class && !known::is_open(self.def.id, &f.sig) {
+                    return true;
+                }
+            }
+        }
+        false
+    }
+}
+
+struct Args {
+    id: String,
+    tier: String,
+    seed: u64,
+    shard: (u32, u32),
+    part: Option<String>,
+    replay: Option<String>,
+    known: String,
+    replay_dir: String,
+    trace: Option<String>,
+    scale: f64,
+    profile: String,
+    phases: String,
+}
+
+fn parse_args() -> Args {
+    let mut a = Args {
+        id: String::new(),
+        tier: std::env::var("VERIF_TIER").unwrap_or_else(|_| "quick".into()),
+        seed: std::env::var("VERIF_SEED").ok().and_then(|s| s.parse().ok()).unwrap_or(1),
+        shard: (0, 1),
+        part: None,
+        replay: None,
+        known: "/verif/known_findings.json".into(),
+        replay_dir: "/verif/replays".into(),
+        trace: None,
+        scale: 1.0,
+        profile: "checked".into(),
+        phases: "dense,free,sched".into(),
+    };
+    let mut it = std::env::args().skip(1);
+    while let Some(x) = it.next() {
+        match x.as_str() {
+            "--tier" => a.tier = it.next().expect("tier"),
+            "--seed" => a.seed = it.next().expect("seed").parse().expect("seed is an integer"),
+            "--shard" => {
+                let s = it.next().expect("shard");
+                let (i, n) = s.split_once('/').expect("i/n");
+                a.shard = (i.parse().unwrap(), n.parse().unwrap());
+            }
+            "--part" => a.part = it.next(),
+            "--replay" => a.replay = it.next(),
+            "--known" => a.known = it.next().expect("path"),
+            "--replay-dir" => a.replay_dir = it.next().expect("dir"),
+            "--trace" => a.trace = it.next(),
+            "--scale" => a.scale = it.next().expect("scale").parse().expect("float"),
+            "--profile" => a.profile = it.next().expect("profile"),
+            "--phases" => a.phases = it.next().expect("phases"),
+            s if !s.starts_with("--") && a.id.is_empty() => a.id = s.to_string(),
+            s => {
+                eprintln!("unknown argument {s}");
+                std::process::exit(2);
+            }
+        }
+    }
+    a
+}
+
+fn salt(id: &str) -> u64 {
+    id.bytes().fold(0x5EED_0000u64, |h, b| h.wrapping_mul(131).wrapping_add(b as u64))
+}
+
+fn rng_seed_bytes(seed: u64) -> [u8; 32] {
+    let mut out = [0u8; 32];
+    let mut x = seed;
+    for chunk in out.chunks_mut(8) {
+        x = vharness::elem::mix(x, 0x9E37);
+        chunk.copy_from_slice(&x.to_le_bytes());
+    }
+    out
+}
+
+fn write_replay(args: &Args, case: &Case, f: &Fail, phase: &str) -> String {
+    let dir = format!("{}/{}", args.replay_dir, args.id);
+    let _ = std::fs::create_dir_all(&dir);
+    let path = format!("{}/{:016x}.json", dir, case.hash64());
+    let body = json!({
+        "property": args.id,
+        "message": f.msg,
+        "signature": f.sig,
+        "phase": phase,
+        "tier": args.tier,
+        "seed": args.seed,
+        "profile": args.profile,
+        "case": serde_json::to_value(case).unwrap(),
+    });
+    std::fs::write(&path, serde_json::to_string_pretty(&body).unwrap()).expect("replay file written");
+    path
+}
+
+fn write_part(args: &Args, def: &PropDef, st: &Stats, wall: f64, violations: u32, dense_total: usize, dense_exhaustive: bool) {
+    let Some(path) = &args.part else { return };
+    let body = json!({
+        "property_id": def.id,
+        "tier": args.tier,
+        "seed": args.seed,
+        "shard": [args.shard.0, args.shard.1],
+        "profile": args.profile,
+        "cases": st.cases,
+        "extra_runs": st.extra_runs,
+        "skipped": st.skipped,
+        "by_phase": st.by_phase,
+        "labels": st.labels,
+        "nontrivial": st.nontrivial,
+        "distinct_hashes": st.distinct.iter().collect::<Vec<_>>(),
+        "excluded_known": st.excluded,
+        "samples": st.samples,
+        "wall_s": wall,
+        "violations": violations,
+        "dense_total": dense_total,
+        "dense_complete": dense_exhaustive,
+        "rule": def.rule,
+        "assumptions": def.assumptions,
+    });
+    std::fs::write(path, serde_json::to_string(&body).unwrap()).expect("part written");
+}
+
+fn report_violation(args: &Args, ctx: &Ctx, case: Case, f: Fail, phase: &'static str) -> ! {
+    ctx.stats.borrow_mut().frozen = true;
+    let class = sig_class(&f.sig).to_string();
+    // polish with the harness' own shrinker
+    let (small, used) = shrink::shrink(&case, 250, |c| ctx.still_fails(c, &class));
+    // message / signature of the minimal case
+    let mut fail = f;
+    for _ in 0..4 {
+        if let Some(f2) = (ctx.def.check)(&small).fail {
+            fail = f2;
+            break;
+        }
+    }
+    let path = write_replay(args, &small, &fail, phase);
+    println!("shrunk with {used} evaluations: {}", small.to_json());
+    println!("failure: {}", fail.msg);
+    println!("signature: {}", fail.sig);
+    println!("VIOLATION property={} replay={}", args.id, path);
+    let st = ctx.stats.borrow();
+    write_part(args, ctx.def, &st, 0.0, 1, 0, false);
+    std::process::exit(1);
+}
+
+fn main() {
+    let args = parse_args();
+    // silence the default panic message for injected panics; keep it for everything else
+    let default_hook = std::panic::take_hook();
+    std::panic::set_hook(Box::new(move |info| {
+        if info.payload().downcast_ref::<vharness::obs::Injected>().is_some() {
+            return;
+        }
+        if std::env::var("VERIF_VERBOSE_PANICS").is_ok() {
+            default_hook(info);
+        }
+    }));
+    known::load(&args.known);
+    let defs = props::all();
+    let Some(def) = defs.iter().find(|d| d.id == args.id) else {
+        eprintln!("unknown property {}", args.id);
+        std::process::exit(2);
+    };
+    let ctx = Ctx {
+        def,
+        stats: RefCell::new(Stats::new()),
+        trace: args.trace.clone(),
+    };
+
+    // ---- replay of a saved case
+    if let Some(path) = &args.replay {
+        let text = std::fs::read_to_string(path).expect("replay file readable");
+        let val: serde_json::Value = serde_json::from_str(&text).expect("replay file is JSON");
+        let case_v = val.get("case").cloned().unwrap_or(val);
+        let case: Case = serde_json::from_value(case_v).expect("replay file holds a case");
+        let reps = match case.mode {
+            Mode::Sched(_) => 3,
+            Mode::Free { .. } => 200,
+        };
+        for i in 0..reps {
+            let v = (def.check)(&case);
+            if let Some(f) = v.fail {
+                if known::is_open(def.id, &f.sig) {
+                    println!("KNOWN-FINDING: property={} {}", def.id, f.sig);
+                    std::process::exit(0);
+                }
+                println!("failure (repetition {i}): {}", f.msg);
+                println!("signature: {}", f.sig);
+                println!("VIOLATION property={} replay={}", def.id, path);
+                std::process::exit(1);
+            }
+        }
+        println!("replay: no violation in {reps} repetitions");
+        std::process::exit(0);
+    }
+
+    let t0 = Instant::now();
+    let thorough = args.tier == "thorough";
+    let (shard_i, shard_n) = args.shard;
+
+    // ---- enumerated sub-domain
+    let dense = if args.phases.contains("dense") { (def.dense)(thorough, args.seed) } else { vec![] };
+    let dense_total = dense.len();
+    for (i, case) in dense.into_iter().enumerate() {
+        if (i as u32) % shard_n != shard_i {
+            continue;
+        }
+        let case = (def.adjust)(case);
+        if let Err(f) = ctx.eval(&case, "dense") {
+            report_violation(&args, &ctx, case, f, "dense");
+        }
+    }
+
+    // ---- generated cases
+    let (n_free, n_sched) = if thorough { def.thorough } else { def.quick };
+    let phases: [(&'static str, &Option<vharness::gen::GenCfg>, u32); 2] = [("free", &def.free, n_free), ("sched", &def.sched, n_sched)];
+    for (phase, cfg, n) in phases {
+        let Some(cfg) = cfg else { continue };
+        if !args.phases.contains(phase) {
+            continue;
+        }
+        let tp = Instant::now();
+        let n = ((n as f64 * args.scale) as u32).div_ceil(shard_n);
+        if n == 0 {
+            continue;
+        }
+        let adjust = def.adjust;
+        let strategy = case_strategy(cfg).prop_map(move |c| adjust(c));
+        let seed = args.seed ^ salt(def.id) ^ ((shard_i as u64) << 40) ^ if phase == "sched" { 0xABCD_0000_0000 } else { 0 } ^ if args.profile == "checked" { 0 } else { 0x77 };
+        let config = Config {
+            cases: n,
+            failure_persistence: None,
+            max_shrink_iters: 600,
+            rng_algorithm: RngAlgorithm::ChaCha,
+            rng_seed: RngSeed::Fixed(seed),
+            ..Config::default()
+        };
+        let _ = rng_seed_bytes;
+        let _: Option<TestRng> = None;
+        let mut runner = TestRunner::new(config);
+        let first_fail: RefCell<Option<String>> = RefCell::new(None);
+        let result = runner.run(&strategy, |case| {
+            // while proptest shrinks: keep to the signature class of the first failure
+            match ctx.eval(&case, phase) {
+                Ok(()) => Ok(()),
+                Err(f) => {
+                    ctx.stats.borrow_mut().frozen = true;
+                    let class = sig_class(&f.sig).to_string();
+                    let mut ff = first_fail.borrow_mut();
+                    match &*ff {
+                        None => {
+                            *ff = Some(class);
+                            Err(TestCaseError::fail(f.msg))
+                        }
+                        Some(c) if *c == class => Err(TestCaseError::fail(f.msg)),
+                        Some(_) => Ok(()),
+                    }
+                }
+            }
+        });
+        match result {
+            Ok(()) => {}
+            Err(TestError::Fail(_, case)) => {
+                let f = (0..6).find_map(|_| (def.check)(&case).fail).unwrap_or(Fail {
+                    msg: "failure did not reproduce on the shrunk case (schedule dependent)".into(),
+                    sig: first_fail.borrow().clone().unwrap_or_default(),
+                });
+                report_violation(&args, &ctx, case, f, phase);
+            }
+            Err(TestError::Abort(why)) => {
+                println!("INCONCLUSIVE proptest aborted: {why}");
+                std::process::exit(2);
+            }
+        }
+        let _ = strategy.new_tree(&mut TestRunner::deterministic()).map(|t| t.current());
+        eprintln!("phase {phase}: {n} cases in {:.1}s", tp.elapsed().as_secs_f64());
+    }
+
+    let st = ctx.stats.borrow();
+    write_part(&args, def, &st, t0.elapsed().as_secs_f64(), 0, dense_total, true);
+    println!(
+        "shard {}/{} of {}: {} cases, {} non-trivial ({} distinct), {} excluded as known findings, {:.1}s",
+        shard_i,
+        shard_n,
+        def.id,
+        st.cases,
+        st.nontrivial,
+        st.distinct.len(),
+        st.excluded.values().sum::<u64>(),
+        t0.elapsed().as_secs_f64()
+    );
+}
